@@ -195,7 +195,7 @@ macro_rules! with_1d {
             if job.data_shape.len() == $dn && (job.query_shape.len() == $qn) {
                 let d = data.clone().into_dimensionality::<$d>().unwrap();
                 let q = xs.clone().into_dimensionality::<$dq>().unwrap();
-                let ip = Interp1DBuilder::new(d).strategy($strat).build().expect("valid build");
+                let ip = nimc::valid_build!($out, Interp1DBuilder::new(d).strategy($strat).build(), return);
                 let reference = ip.interp_array(&q).expect("in range").into_dyn();
                 let key = format!("{}:{}x{}", job.key(), stringify!($d), stringify!($dq));
                 let case = |extra: Vec<(&str, Json)>| {
@@ -212,7 +212,7 @@ macro_rules! with_1d {
         )*
         // interp_into: buffer = data shape without the first axis
         {
-            let ip = Interp1DBuilder::new(data.clone()).strategy($strat).build().expect("valid build");
+            let ip = nimc::valid_build!($out, Interp1DBuilder::new(data.clone()).strategy($strat).build(), return);
             let x = 1.25;
             let reference = ip.interp(x).expect("in range");
             let key = format!("{}:interp_into(dyn)", job.key());
@@ -235,7 +235,7 @@ fn run_1d_static_interp_into(job: &Job, out: &mut JobOut) {
         ($d:ty, $n:expr) => {
             if job.data_shape.len() == $n {
                 let d = data_nd(&job.data_shape).into_dimensionality::<$d>().unwrap();
-                let ip = Interp1DBuilder::new(d).build().expect("valid build");
+                let ip = nimc::valid_build!(out, Interp1DBuilder::new(d).build(), return);
                 let reference = ip.interp(1.25).expect("in range").into_dyn();
                 let key = format!("{}:interp_into({})", job.key(), stringify!($d));
                 let case = |extra: Vec<(&str, Json)>| {
@@ -292,7 +292,7 @@ fn run_2d(job: &Job, out: &mut JobOut) {
                 let d = data.clone().into_dimensionality::<$d>().unwrap();
                 let qx = xs.clone().into_dimensionality::<$dq>().unwrap();
                 let qy = ys.clone().into_dimensionality::<$dq>().unwrap();
-                let ip = Interp2DBuilder::new(d).strategy(Bilinear::new()).build().expect("valid build");
+                let ip = nimc::valid_build!(out, Interp2DBuilder::new(d).strategy(Bilinear::new()).build(), return);
                 let reference = ip.interp_array(&qx, &qy).expect("in range").into_dyn();
                 let key = format!("{}:{}x{}", job.key(), stringify!($d), stringify!($dq));
                 let case = |extra: Vec<(&str, Json)>| {
@@ -321,7 +321,7 @@ fn run_2d(job: &Job, out: &mut JobOut) {
     go!(Ix3, IxDyn, 3, job.query_shape.len());
     // xs / ys of different shapes: every single-axis difference, and a permutation
     {
-        let ip = Interp2DBuilder::new(data.clone()).build().expect("valid build");
+        let ip = nimc::valid_build!(out, Interp2DBuilder::new(data.clone()).build(), return);
         let mut alts: Vec<Vec<usize>> = vec![];
         for i in 0..nq {
             let mut s = job.query_shape.clone();
@@ -370,7 +370,7 @@ fn run_2d(job: &Job, out: &mut JobOut) {
     }
     // interp_into
     {
-        let ip = Interp2DBuilder::new(data.clone()).build().expect("valid build");
+        let ip = nimc::valid_build!(out, Interp2DBuilder::new(data.clone()).build(), return);
         let reference = ip.interp(1.25, 0.75).expect("in range");
         let key = format!("{}:interp_into(dyn)", job.key());
         let case = |extra: Vec<(&str, Json)>| {
